@@ -498,6 +498,7 @@ func main() {
 		r := root.Sub(uint64(i))
 		oneScript(run, r, i, rf, res, nQ)
 	}
+	listHelpersConcurrent(run, root.Sub(990001), rf, res, nScripts)
 	probes(run, root, rf, res)
 	entryPoints(run, res)
 	parsing(run, root)
@@ -505,6 +506,7 @@ func main() {
 	run.Floor("concurrent_answers_compared", int64(nScripts*nQ*4))
 	run.Floor("error_results_checked", int64(nScripts))
 	run.Floor("helper_probes", 200)
+	run.Floor("concurrent_list_answers_compared", 3000)
 	run.Floor("result_lists_parsed", 500)
 	run.Finish()
 }
@@ -612,6 +614,77 @@ func oneScript(run *lib.Run, r *lib.RNG, idx int, rf ref, res *net.Resolver, nQ 
 						key = "concurrent-vm-shared"
 					}
 					run.Violation(key, fmt.Sprintf("through the pool under concurrency %q -> (%q, err=%v); evaluated alone -> (%q, err=%v)", qs[k].url, got, err, seq[k].s, seq[k].err), idx, map[string]any{"script": s.src})
+				}
+			}
+		}(wk)
+	}
+	wg.Wait()
+}
+
+// listHelpersConcurrent: the helpers that produce address lists (sortIpAddressList, dnsResolveEx),
+// fed a different list by every caller, through one pool from 32 goroutines: each answer must
+// equal the reference and the answer of the same query evaluated alone.
+func listHelpersConcurrent(run *lib.Run, r *lib.RNG, rf ref, res *net.Resolver, base int) {
+	src := `function FindProxyForURLEx(url, host) {
+  var l = url.substring(url.indexOf("?") + 1);
+  return "S=" + sortIpAddressList(l) + "|R=" + sortIpAddressList(dnsResolveEx(host)) + "|S2=" + sortIpAddressList(l);
+}`
+	cfg := &pac.ProxyResolverConfig{Script: src}
+	pool, err := pac.NewProxyResolverPool(cfg, res)
+	if err != nil {
+		run.Violation("valid-script-rejected", "list-helper script: "+err.Error(), -1, nil)
+		return
+	}
+	alone, err := pac.NewProxyResolver(cfg, res)
+	if err != nil {
+		run.Violation("valid-script-rejected", "list-helper script: "+err.Error(), -1, nil)
+		return
+	}
+	type q struct{ url, host, want string }
+	var qs []q
+	hosts := []string{"multi.test", "www.example.com", "api.corp.test", "v6only.test", "intranet"}
+	for i := 0; i < 64; i++ {
+		var items []string
+		for k := r.Range(2, 7); k > 0; k-- {
+			items = append(items, fmt.Sprintf("10.%d.%d.%d", i, r.Intn(4), r.Intn(250)))
+		}
+		list := strings.Join(items, ";")
+		h := hosts[i%len(hosts)]
+		sorted, _ := rf.sortIpAddressList(list)
+		var addrs []string
+		for _, ip := range rf.z.lookupAll(h) {
+			addrs = append(addrs, ip.String())
+		}
+		rs, _ := rf.sortIpAddressList(strings.Join(addrs, ";"))
+		qs = append(qs, q{"http://" + h + "/p?" + list, h, "S=" + sorted + "|R=" + rs + "|S2=" + sorted})
+	}
+	if !run.Want(base) {
+		return
+	}
+	run.Case(base, "list-helpers|concurrent", nil)
+	for _, qq := range qs {
+		u, _ := url.Parse(qq.url)
+		got, err := safeFind(alone, u, "")
+		run.Count("answers_compared", 1)
+		if err != nil || got != qq.want {
+			run.Violation("helper-value:list-helpers", fmt.Sprintf("evaluated alone %q -> (%q, %v), reference %q", qq.url, got, err, qq.want), base, map[string]any{"script": src})
+			return
+		}
+	}
+	var wg sync.WaitGroup
+	for wk := 0; wk < 32; wk++ {
+		wg.Add(1)
+		go func(wk int) {
+			defer wg.Done()
+			rr := r.Sub(uint64(5000 + wk))
+			for n := 0; n < 120; n++ {
+				qq := qs[(wk*2+rr.Intn(2))%len(qs)] // neighbouring callers use different lists
+				u, _ := url.Parse(qq.url)
+				got, err := safeFind(pool, u, "")
+				run.Count("concurrent_list_answers_compared", 1)
+				if err != nil || got != qq.want {
+					run.Violation("concurrent-answer-differs:list-helpers", fmt.Sprintf("through the pool under concurrency %q -> (%q, err=%v); evaluated alone -> %q", qq.url, got, err, qq.want), base, map[string]any{"script": src})
+					return
 				}
 			}
 		}(wk)
